@@ -1,9 +1,1301 @@
-//! AArch64 emulator (to be written)
+//! AArch64 subset emulator for the text printed by `axcut2aarch64` (GNU syntax, upper case), with
+//! poison tracking, bounds checks, an ABI monitor at external calls / the final return and the
+//! statement-boundary heap monitor.  Mirrors `x86.rs`.
+//!
+//! Supported forms (exactly what `impl Print for Code` in axcut2aarch64/src/code.rs can print):
+//!   ADD/SUB Xd, Xn, Xm | ADD/SUB Xd|SP, Xn|SP, imm | MUL | SDIV | MSUB Xd, Xn, Xm, Xa
+//!   B l | BR Xn | BL l | ADR Xd, l | MOV Xd, Xm | MOVZ/MOVN/MOVK Xd, imm, LSL s
+//!   LDR/STR Xt, [ Xn|SP, imm ] | LDP Xt1, Xt2, [ Xn|SP ], imm | STP Xt1, Xt2, [ Xn|SP, imm ]!
+//!   CMP Xn, Xm | CMP Xn, imm | BEQ/BNE/BLT/BLE/BGT/BGE l | RET
+//!   labels `name:`, directives `.text` / `.global`, comments `// ...` (`// @verif ...` = marker)
+
 use super::*;
-pub struct Program;
-pub fn parse(_text: &str) -> Result<Program, String> {
-    Err("aarch64 emulator not built yet".into())
+use axcut2aarch64::config::{FREE, HEAP, Register as BReg, Temporary, stack_offset};
+use axcut2backend::config::TemporaryNumber;
+use axcut2backend::utils::Utils;
+
+/// 0..=30 = X0..X30, 31 = SP, 32 = XZR
+pub type Reg = u8;
+pub const LR: Reg = 30;
+pub const SP: Reg = 31;
+pub const XZR: Reg = 32;
+
+#[derive(Clone, Copy, Debug, PartialEq, Eq)]
+pub enum Cc {
+    Eq,
+    Ne,
+    Lt,
+    Le,
+    Gt,
+    Ge,
 }
-pub fn run(_p: &Program, _args: &[i64], _cfg: &EmuConfig) -> EmuResult {
-    unreachable!()
+
+#[derive(Clone, Debug)]
+pub enum Ins {
+    Add(Reg, Reg, Reg),
+    AddI(Reg, Reg, i64),
+    Sub(Reg, Reg, Reg),
+    SubI(Reg, Reg, i64),
+    Mul(Reg, Reg, Reg),
+    Sdiv(Reg, Reg, Reg),
+    /// MSUB Xd, Xn, Xm, Xa : Xd = Xa - Xn * Xm
+    Msub(Reg, Reg, Reg, Reg),
+    B(String),
+    Br(Reg),
+    Bl(String),
+    Adr(Reg, String),
+    Mov(Reg, Reg),
+    Movz(Reg, i64, i64),
+    Movn(Reg, i64, i64),
+    Movk(Reg, i64, i64),
+    Ldr(Reg, Reg, i64),
+    Str(Reg, Reg, i64),
+    /// LDP Xt1, Xt2, [ Xn ], imm
+    LdpPost(Reg, Reg, Reg, i64),
+    /// STP Xt1, Xt2, [ Xn, imm ]!
+    StpPre(Reg, Reg, Reg, i64),
+    CmpR(Reg, Reg),
+    CmpI(Reg, i64),
+    Bcc(Cc, String),
+    Ret,
+    Marker(Marker),
+}
+
+#[derive(Debug)]
+pub struct Program {
+    pub ins: Vec<Ins>,
+    pub line: Vec<usize>,
+    pub addr: Vec<u64>,
+    pub labels: HashMap<String, usize>,
+    pub addr_to_idx: HashMap<u64, usize>,
+    pub entry: usize,
+    /// resolved label operand of B / B.cond / ADR (usize::MAX = none / undefined label)
+    pub target: Vec<usize>,
+    /// why the instruction has no encoding (checked when it is executed)
+    pub unenc: Vec<Option<String>>,
+}
+
+fn reg_name(r: Reg) -> String {
+    match r {
+        SP => "SP".into(),
+        XZR => "XZR".into(),
+        n => format!("X{n}"),
+    }
+}
+
+fn reg(s: &str) -> Option<Reg> {
+    match s {
+        "SP" => Some(SP),
+        "XZR" => Some(XZR),
+        _ => {
+            let n: u8 = s.strip_prefix('X')?.parse().ok()?;
+            // canonical spelling only (no X07, X+3, X31)
+            if n <= 30 && format!("X{n}") == s { Some(n) } else { None }
+        }
+    }
+}
+
+fn imm(s: &str) -> Option<i64> {
+    if s.is_empty() || s.starts_with('+') {
+        return None;
+    }
+    s.parse::<i64>().ok()
+}
+
+/// backend register (axcut2aarch64::config::Register) -> hardware register index used here;
+/// the backend skips X18, exactly as its printer does
+pub fn backend_reg(r: BReg) -> Reg {
+    match r {
+        BReg::X(n) if n < 18 => n as Reg,
+        BReg::X(n) => (n + 1) as Reg,
+        BReg::SP => SP,
+        BReg::XZR => XZR,
+    }
+}
+
+fn tokenize(s: &str) -> Vec<&str> {
+    let mut out = Vec::new();
+    let mut start: Option<usize> = None;
+    for (i, ch) in s.char_indices() {
+        let punct = matches!(ch, ',' | '[' | ']' | '!');
+        if ch.is_whitespace() || punct {
+            if let Some(b) = start.take() {
+                out.push(&s[b..i]);
+            }
+            if punct {
+                out.push(&s[i..i + ch.len_utf8()]);
+            }
+        } else if start.is_none() {
+            start = Some(i);
+        }
+    }
+    if let Some(b) = start {
+        out.push(&s[b..]);
+    }
+    out
+}
+
+fn label_operand(s: &str) -> Option<String> {
+    let s = s.trim();
+    if s.is_empty() || s.contains(char::is_whitespace) || s.contains(',') { None } else { Some(s.to_string()) }
+}
+
+fn parse_ins(mn: &str, rest: &str) -> Option<Ins> {
+    let toks = tokenize(rest);
+    let t = toks.as_slice();
+    Some(match (mn, t) {
+        ("ADD" | "SUB", [d, ",", n, ",", m]) => {
+            let (d, n) = (reg(d)?, reg(n)?);
+            if let Some(m) = reg(m) {
+                if mn == "ADD" { Ins::Add(d, n, m) } else { Ins::Sub(d, n, m) }
+            } else {
+                let i = imm(m)?;
+                if mn == "ADD" { Ins::AddI(d, n, i) } else { Ins::SubI(d, n, i) }
+            }
+        }
+        ("MUL", [d, ",", n, ",", m]) => Ins::Mul(reg(d)?, reg(n)?, reg(m)?),
+        ("SDIV", [d, ",", n, ",", m]) => Ins::Sdiv(reg(d)?, reg(n)?, reg(m)?),
+        ("MSUB", [d, ",", n, ",", m, ",", a]) => Ins::Msub(reg(d)?, reg(n)?, reg(m)?, reg(a)?),
+        ("B", _) => Ins::B(label_operand(rest)?),
+        ("BL", _) => Ins::Bl(label_operand(rest)?),
+        ("BR", [r]) => Ins::Br(reg(r)?),
+        ("ADR", _) => {
+            let (r, l) = rest.split_once(',')?;
+            Ins::Adr(reg(r.trim())?, label_operand(l)?)
+        }
+        ("MOV", [d, ",", s]) => Ins::Mov(reg(d)?, reg(s)?),
+        ("MOVZ" | "MOVN" | "MOVK", [d, ",", i, ",", "LSL", s]) => {
+            let (d, i, s) = (reg(d)?, imm(i)?, imm(s)?);
+            match mn {
+                "MOVZ" => Ins::Movz(d, i, s),
+                "MOVN" => Ins::Movn(d, i, s),
+                _ => Ins::Movk(d, i, s),
+            }
+        }
+        ("LDR", [t, ",", "[", b, ",", i, "]"]) => Ins::Ldr(reg(t)?, reg(b)?, imm(i)?),
+        ("STR", [t, ",", "[", b, ",", i, "]"]) => Ins::Str(reg(t)?, reg(b)?, imm(i)?),
+        ("LDP", [t1, ",", t2, ",", "[", b, "]", ",", i]) => Ins::LdpPost(reg(t1)?, reg(t2)?, reg(b)?, imm(i)?),
+        ("STP", [t1, ",", t2, ",", "[", b, ",", i, "]", "!"]) => Ins::StpPre(reg(t1)?, reg(t2)?, reg(b)?, imm(i)?),
+        ("CMP", [a, ",", b]) => {
+            let a = reg(a)?;
+            if let Some(b) = reg(b) { Ins::CmpR(a, b) } else { Ins::CmpI(a, imm(b)?) }
+        }
+        ("BEQ", _) => Ins::Bcc(Cc::Eq, label_operand(rest)?),
+        ("BNE", _) => Ins::Bcc(Cc::Ne, label_operand(rest)?),
+        ("BLT", _) => Ins::Bcc(Cc::Lt, label_operand(rest)?),
+        ("BLE", _) => Ins::Bcc(Cc::Le, label_operand(rest)?),
+        ("BGT", _) => Ins::Bcc(Cc::Gt, label_operand(rest)?),
+        ("BGE", _) => Ins::Bcc(Cc::Ge, label_operand(rest)?),
+        ("RET", []) => Ins::Ret,
+        _ => return None,
+    })
+}
+
+/// Register-role and immediate-range rules of the A64 encodings (register number 31 is SP in
+/// some operand positions and XZR in others).
+fn check_encodable(i: &Ins) -> Option<String> {
+    let addsub_imm = |v: i64| -> bool { (0..=4095).contains(&v) || (v & 0xfff == 0 && (0..=4095).contains(&(v >> 12))) };
+    let wide = |d: Reg, v: i64, s: i64| -> Option<String> {
+        if d == SP {
+            return Some("SP as the destination of a move-wide instruction".into());
+        }
+        if !(0..=65535).contains(&v) {
+            return Some(format!("move-wide immediate {v} outside 0..65535"));
+        }
+        if !matches!(s, 0 | 16 | 32 | 48) {
+            return Some(format!("move-wide shift {s} is not 0, 16, 32 or 48"));
+        }
+        None
+    };
+    match i {
+        Ins::Add(d, n, m) | Ins::Sub(d, n, m) => {
+            if *m == SP {
+                return Some("SP as the second source operand of a register-form ADD/SUB".into());
+            }
+            if (*d == SP || *n == SP) && (*d == XZR || *n == XZR) {
+                return Some("SP and XZR mixed in a register-form ADD/SUB".into());
+            }
+            None
+        }
+        Ins::AddI(d, n, v) | Ins::SubI(d, n, v) => {
+            if *d == XZR || *n == XZR {
+                return Some("XZR in an immediate-form ADD/SUB".into());
+            }
+            if !addsub_imm(*v) {
+                return Some(format!("ADD/SUB immediate {v} outside 0..4095 (optionally shifted by 12)"));
+            }
+            None
+        }
+        Ins::Mul(d, n, m) | Ins::Sdiv(d, n, m) => {
+            if [*d, *n, *m].contains(&SP) {
+                return Some("SP as an operand of MUL/SDIV".into());
+            }
+            None
+        }
+        Ins::Msub(d, n, m, a) => {
+            if [*d, *n, *m, *a].contains(&SP) {
+                return Some("SP as an operand of MSUB".into());
+            }
+            None
+        }
+        Ins::Mov(d, s) => {
+            if (*d == SP && *s == XZR) || (*d == XZR && *s == SP) {
+                return Some("MOV between SP and XZR".into());
+            }
+            None
+        }
+        Ins::Movz(d, v, s) | Ins::Movn(d, v, s) | Ins::Movk(d, v, s) => wide(*d, *v, *s),
+        Ins::Ldr(t, b, off) | Ins::Str(t, b, off) => {
+            if *t == SP {
+                return Some("SP as the transfer register of LDR/STR".into());
+            }
+            if *b == XZR {
+                return Some("XZR as the base register of LDR/STR".into());
+            }
+            let scaled = (0..=32760).contains(off) && off % 8 == 0;
+            let unscaled = (-256..=255).contains(off);
+            if !scaled && !unscaled {
+                return Some(format!("LDR/STR offset {off} not a multiple of 8 in 0..32760"));
+            }
+            None
+        }
+        Ins::LdpPost(t1, t2, b, off) | Ins::StpPre(t1, t2, b, off) => {
+            if *t1 == SP || *t2 == SP {
+                return Some("SP as a transfer register of LDP/STP".into());
+            }
+            if *b == XZR {
+                return Some("XZR as the base register of LDP/STP".into());
+            }
+            if !(-512..=504).contains(off) || off % 8 != 0 {
+                return Some(format!("LDP/STP offset {off} not a multiple of 8 in -512..504"));
+            }
+            if *b != SP && (*t1 == *b || *t2 == *b) {
+                return Some("LDP/STP with writeback to a transfer register (unpredictable)".into());
+            }
+            if matches!(i, Ins::LdpPost(..)) && *t1 == *t2 && *t1 != XZR {
+                return Some("LDP with two equal destination registers (unpredictable)".into());
+            }
+            None
+        }
+        Ins::CmpR(_, b) => {
+            if *b == SP {
+                return Some("SP as the second operand of CMP".into());
+            }
+            None
+        }
+        Ins::CmpI(a, v) => {
+            if *a == XZR {
+                return Some("XZR in an immediate-form CMP".into());
+            }
+            if !addsub_imm(*v) {
+                return Some(format!("CMP immediate {v} outside 0..4095 (optionally shifted by 12)"));
+            }
+            None
+        }
+        Ins::Br(r) => {
+            if *r == SP {
+                return Some("SP as the target register of BR".into());
+            }
+            None
+        }
+        Ins::Adr(d, _) => {
+            if *d == SP {
+                return Some("SP as the destination of ADR".into());
+            }
+            None
+        }
+        _ => None,
+    }
+}
+
+pub fn parse(text: &str) -> Result<Program, String> {
+    let mut ins = Vec::new();
+    let mut line = Vec::new();
+    let mut labels: HashMap<String, usize> = HashMap::new();
+    for (ln, raw) in text.lines().enumerate() {
+        let t = raw.trim();
+        if t.is_empty() {
+            continue;
+        }
+        if let Some(c) = t.strip_prefix("//") {
+            if let Some(m) = parse_marker(c) {
+                ins.push(Ins::Marker(m));
+                line.push(ln + 1);
+            } else if c.trim_start().starts_with("@verif") {
+                return Err(format!("line {}: malformed marker {t}", ln + 1));
+            }
+            continue;
+        }
+        if t == ".text" || t.starts_with(".global ") || t.starts_with(".globl ") {
+            continue;
+        }
+        if let Some(l) = t.strip_suffix(':') {
+            if l.is_empty() || l.contains(char::is_whitespace) {
+                return Err(format!("line {}: bad label {t}", ln + 1));
+            }
+            if labels.insert(l.to_string(), ins.len()).is_some() {
+                return Err(format!("line {}: duplicate label {l}", ln + 1));
+            }
+            continue;
+        }
+        let (mn, rest) = match t.split_once(char::is_whitespace) {
+            Some((a, b)) => (a, b.trim()),
+            None => (t, ""),
+        };
+        match parse_ins(mn, rest) {
+            Some(i) => {
+                ins.push(i);
+                line.push(ln + 1);
+            }
+            None => return Err(format!("line {}: unknown instruction form: {t}", ln + 1)),
+        }
+    }
+    // addresses: every instruction is 4 bytes, markers 0
+    let mut addr = Vec::with_capacity(ins.len());
+    let mut a = CODE_BASE;
+    let mut addr_to_idx = HashMap::new();
+    for (i, x) in ins.iter().enumerate() {
+        addr.push(a);
+        match x {
+            Ins::Marker(_) => {}
+            _ => {
+                addr_to_idx.entry(a).or_insert(i);
+                a += 4;
+            }
+        }
+    }
+    // an address maps to the first instruction at it, which may be preceded by zero-size markers
+    for (i, x) in ins.iter().enumerate().rev() {
+        if let Ins::Marker(_) = x {
+            if i + 1 < ins.len() {
+                addr_to_idx.insert(addr[i], i);
+            }
+        }
+    }
+    // markers at the very end have the end address, which is not an instruction start
+    if let Some(last_real) = ins.iter().rposition(|x| !matches!(x, Ins::Marker(_))) {
+        if last_real + 1 < ins.len() {
+            addr_to_idx.remove(&a);
+        }
+    } else {
+        addr_to_idx.clear();
+    }
+    // label operands and encodability
+    let mut target = vec![usize::MAX; ins.len()];
+    let mut unenc: Vec<Option<String>> = Vec::with_capacity(ins.len());
+    for (i, x) in ins.iter().enumerate() {
+        let mut why = check_encodable(x);
+        let (l, range, what) = match x {
+            Ins::B(l) => (Some(l), 1i64 << 27, "B"),
+            Ins::Bcc(_, l) => (Some(l), 1i64 << 20, "B.cond"),
+            Ins::Adr(_, l) => (Some(l), 1i64 << 20, "ADR"),
+            _ => (None, 0, ""),
+        };
+        if let Some(l) = l {
+            if let Some(t) = labels.get(l) {
+                target[i] = *t;
+                // a label at the very end of the text has the end address
+                let ta = if *t < addr.len() { addr[*t] } else { a };
+                let dist = ta as i64 - addr[i] as i64;
+                if why.is_none() && !(-range..range).contains(&dist) {
+                    why = Some(format!("{what} to {l}: distance {dist} bytes exceeds the reach of the instruction"));
+                }
+            }
+        }
+        unenc.push(why);
+    }
+    let entry = *labels.get("asm_main").ok_or("no asm_main label")?;
+    Ok(Program { ins, line, addr, labels, addr_to_idx, entry, target, unenc })
+}
+
+pub struct Machine<'p> {
+    pub prog: &'p Program,
+    /// X0..X30, [31] = SP
+    pub regs: [u64; 32],
+    pub rdef: [bool; 32],
+    pub heap: Region,
+    pub stack: Region,
+    /// operands (value, defined) of the last CMP
+    pub flags: Option<((u64, bool), (u64, bool))>,
+    /// flags were invalidated by an external call (and not set again since)
+    pub flags_clobbered: bool,
+    pub max_written: u64,
+    /// lowest stack address written so far
+    pub stack_low: u64,
+    pub prints: Vec<PrintEv>,
+    pub stats: EmuStats,
+    pub entry_sp: u64,
+    /// first temporary of environment position i, by the backend's own map
+    root_tmp: Vec<Temporary>,
+}
+
+enum Stop {
+    Done(i64),
+    Undef(Undefined),
+    Viol(ViolationKind, String),
+}
+
+const RET_SENTINEL: u64 = 0x0000_dead_0000_beef;
+const CALLEE_SENTINEL: u64 = 0xCA11_EE00_0000_0000;
+/// X19..X28 and the frame pointer X29
+const CALLEE_SAVED: [Reg; 11] = [19, 20, 21, 22, 23, 24, 25, 26, 27, 28, 29];
+const CLOBBER_NOTE: &str = "clobbered by an external call";
+
+/// suffix for Poison messages: was the offending undefined value produced by an external call?
+fn note(v: u64, d: bool) -> String {
+    if !d && v >> 48 == 0xDEAD { format!(" (value {v:#x} {CLOBBER_NOTE})") } else { String::new() }
+}
+
+impl<'p> Machine<'p> {
+    fn viol<T>(kind: ViolationKind, msg: String) -> Result<T, Stop> {
+        Err(Stop::Viol(kind, msg))
+    }
+
+    pub fn get(&self, r: Reg) -> (u64, bool) {
+        if r == XZR { (0, true) } else { (self.regs[r as usize], self.rdef[r as usize]) }
+    }
+
+    pub fn set(&mut self, r: Reg, v: u64, d: bool) {
+        if r != XZR {
+            self.regs[r as usize] = v;
+            self.rdef[r as usize] = d;
+        }
+    }
+
+    fn mem_check(&mut self, addr: u64, write: bool) -> Result<(bool, usize), Stop> {
+        if addr % 8 != 0 {
+            return Self::viol(ViolationKind::OutOfBounds, format!("unaligned access at {addr:#x}"));
+        }
+        if self.heap.contains(addr) {
+            self.stats.heap_accesses += 1;
+            if write {
+                self.max_written = self.max_written.max(addr);
+            }
+            return Ok((true, self.heap.idx(addr)));
+        }
+        if self.stack.contains(addr) {
+            let sp = self.regs[SP as usize];
+            if addr < sp {
+                return Self::viol(ViolationKind::OutOfBounds, format!("access below the stack pointer at {addr:#x} (sp={sp:#x})"));
+            }
+            if addr >= self.entry_sp {
+                return Self::viol(ViolationKind::OutOfBounds, format!("access to the caller's frame at {addr:#x}"));
+            }
+            self.stats.spill_accesses += 1;
+            if write {
+                self.stack_low = self.stack_low.min(addr);
+            }
+            return Ok((false, self.stack.idx(addr)));
+        }
+        if addr >= self.heap.end() && addr < self.heap.end() + (1 << 28) {
+            if std::env::var("EMU_DEBUG").is_ok() {
+                eprintln!("heap exhausted: access at {addr:#x}");
+            }
+            return Err(Stop::Undef(Undefined::Heap));
+        }
+        Self::viol(ViolationKind::OutOfBounds, format!("access outside heap and stack at {addr:#x}"))
+    }
+
+    /// value of the base register of a memory access, with the poison and SP-alignment rules
+    fn base_of(&mut self, base: Reg) -> Result<u64, Stop> {
+        let (v, d) = self.get(base);
+        if !d {
+            return Self::viol(ViolationKind::Poison, format!("address computed from undefined register {}{}", reg_name(base), note(v, d)));
+        }
+        if base == SP && v % 16 != 0 {
+            return Self::viol(ViolationKind::Abi, format!("stack pointer {v:#x} not 16-byte aligned at an SP-relative memory access"));
+        }
+        Ok(v)
+    }
+
+    fn mem_read(&mut self, addr: u64) -> Result<(u64, bool), Stop> {
+        let (h, i) = self.mem_check(addr, false)?;
+        if h { Ok((self.heap.words[i], self.heap.def[i])) } else { Ok((self.stack.words[i], self.stack.def[i])) }
+    }
+
+    fn mem_write(&mut self, addr: u64, v: u64, d: bool) -> Result<(), Stop> {
+        let (h, i) = self.mem_check(addr, true)?;
+        if h {
+            self.heap.words[i] = v;
+            self.heap.def[i] = d;
+        } else {
+            self.stack.words[i] = v;
+            self.stack.def[i] = d;
+        }
+        Ok(())
+    }
+
+    fn jump_label(&self, pc: usize, l: &str) -> Result<usize, Stop> {
+        let t = self.prog.target[pc];
+        if t == usize::MAX {
+            return Err(Stop::Viol(ViolationKind::WildJump, format!("jump to undefined label {l}")));
+        }
+        Ok(t)
+    }
+
+    fn roots_for(&mut self, n: usize) -> Vec<(u64, bool)> {
+        // position -> temporary by the backend's own map: in a context with `pos` bindings,
+        // fresh_temporary(Fst) is the first temporary of position pos
+        while self.root_tmp.len() < n {
+            let ctx = super::x86::dummy_context(self.root_tmp.len());
+            let t = <axcut2aarch64::Backend as Utils<Temporary>>::fresh_temporary(TemporaryNumber::Fst, &ctx);
+            self.root_tmp.push(t);
+        }
+        let mut out = Vec::with_capacity(n);
+        for pos in 0..n {
+            match self.root_tmp[pos] {
+                Temporary::Register(r) => out.push(self.get(backend_reg(r))),
+                Temporary::Spill(s) => {
+                    let a = self.regs[SP as usize].wrapping_add(stack_offset(s).val as u64);
+                    if a % 8 == 0 && self.stack.contains(a) {
+                        let i = self.stack.idx(a);
+                        out.push((self.stack.words[i], self.stack.def[i]));
+                    } else {
+                        out.push((0, false));
+                    }
+                }
+            }
+        }
+        out
+    }
+
+    pub fn new(prog: &'p Program, args: &[i64], cfg: &EmuConfig) -> Machine<'p> {
+        let mut m = Machine {
+            prog,
+            regs: [0; 32],
+            rdef: [false; 32],
+            heap: Region::new(HEAP_BASE, cfg.heap_bytes, true),
+            stack: Region::new(STACK_TOP - STACK_SIZE, STACK_SIZE, false),
+            flags: None,
+            flags_clobbered: false,
+            max_written: 0,
+            stack_low: STACK_TOP,
+            prints: Vec::new(),
+            stats: EmuStats::default(),
+            entry_sp: 0,
+            root_tmp: Vec::new(),
+        };
+        // entry state (AAPCS64): sp 16-byte aligned, return address in the link register
+        let sp = STACK_TOP - 256;
+        m.entry_sp = sp;
+        m.set(SP, sp, true);
+        m.set(LR, RET_SENTINEL, true);
+        m.set(0, HEAP_BASE, true);
+        for (k, a) in args.iter().enumerate() {
+            if k < 7 {
+                m.set(1 + k as Reg, *a as u64, true);
+            }
+        }
+        // callee-saved registers hold the caller's values: must be preserved but never used
+        for (k, r) in CALLEE_SAVED.iter().enumerate() {
+            m.set(*r, CALLEE_SENTINEL + k as u64, false);
+        }
+        m
+    }
+
+    fn step(&mut self, pc: usize, cfg: &EmuConfig, monitor: &mut HeapMonitor) -> Result<usize, Stop> {
+        let prog = self.prog;
+        if let Some(why) = &prog.unenc[pc] {
+            return Self::viol(ViolationKind::Unencodable, why.clone());
+        }
+        match &prog.ins[pc] {
+            Ins::Marker(mk) => {
+                self.stats.markers += 1;
+                *self.stats.marker_kinds.entry(mk.kind.clone()).or_insert(0) += 1;
+                self.stats.max_env = self.stats.max_env.max(mk.env.len());
+                if cfg.heap_check_every > 0 && self.stats.markers % cfg.heap_check_every == 0 {
+                    let roots = self.roots_for(mk.env.len());
+                    let heap_reg = self.get(backend_reg(HEAP));
+                    let free_reg = self.get(backend_reg(FREE));
+                    let view = HeapView { heap: &self.heap, heap_reg, free_reg, roots, max_written: self.max_written };
+                    let fp = cfg.footprint_check && cfg.heap_check_every == 1;
+                    let mut st = std::mem::take(&mut self.stats);
+                    let r = monitor.check(&view, mk, &mut st, fp);
+                    self.stats = st;
+                    if let Err((k, msg)) = r {
+                        if msg == "heap exhausted" {
+                            if std::env::var("EMU_DEBUG").is_ok() {
+                                eprintln!("heap exhausted in monitor: free={:#x}", free_reg.0);
+                            }
+                            return Err(Stop::Undef(Undefined::Heap));
+                        }
+                        // was the offending undefined value left behind by an external call?
+                        let mut extra = String::new();
+                        if k == ViolationKind::Poison {
+                            if let Some((v, d)) = view.roots.iter().zip(mk.env.iter()).find(|((_, d), b)| b.1 != Chi::Ext && !*d).map(|(x, _)| *x) {
+                                extra = note(v, d);
+                            }
+                        } else if !heap_reg.1 || !free_reg.1 {
+                            extra = if !heap_reg.1 { note(heap_reg.0, false) } else { note(free_reg.0, false) };
+                        }
+                        return Self::viol(k, format!("at marker stmt={} env={}: {msg}{extra}", mk.kind, mk.env.len()));
+                    }
+                }
+                Ok(pc + 1)
+            }
+            Ins::Mov(d, s) => {
+                let (v, df) = self.get(*s);
+                self.set(*d, v, df);
+                Ok(pc + 1)
+            }
+            Ins::Add(d, n, m) | Ins::Sub(d, n, m) | Ins::Mul(d, n, m) => {
+                let (a, da) = self.get(*n);
+                let (b, db) = self.get(*m);
+                let r = match &prog.ins[pc] {
+                    Ins::Add(..) => a.wrapping_add(b),
+                    Ins::Sub(..) => a.wrapping_sub(b),
+                    _ => a.wrapping_mul(b),
+                };
+                self.set(*d, r, da && db);
+                Ok(pc + 1)
+            }
+            Ins::AddI(d, n, i) | Ins::SubI(d, n, i) => {
+                let (a, da) = self.get(*n);
+                let r = if matches!(&prog.ins[pc], Ins::AddI(..)) { a.wrapping_add(*i as u64) } else { a.wrapping_sub(*i as u64) };
+                self.set(*d, r, da);
+                Ok(pc + 1)
+            }
+            Ins::Sdiv(d, n, m) => {
+                let (a, da) = self.get(*n);
+                let (b, db) = self.get(*m);
+                if !db {
+                    return Self::viol(ViolationKind::Poison, format!("division by an undefined value{}", note(b, db)));
+                }
+                // hardware: x / 0 = 0, i64::MIN / -1 = i64::MIN, no trap
+                let r = if b == 0 { 0 } else { (a as i64).wrapping_div(b as i64) as u64 };
+                self.set(*d, r, da);
+                Ok(pc + 1)
+            }
+            Ins::Msub(d, n, m, a) => {
+                let (x, dx) = self.get(*n);
+                let (y, dy) = self.get(*m);
+                let (z, dz) = self.get(*a);
+                self.set(*d, z.wrapping_sub(x.wrapping_mul(y)), dx && dy && dz);
+                Ok(pc + 1)
+            }
+            Ins::Movz(d, i, s) => {
+                self.set(*d, (*i as u64) << *s, true);
+                Ok(pc + 1)
+            }
+            Ins::Movn(d, i, s) => {
+                self.set(*d, !((*i as u64) << *s), true);
+                Ok(pc + 1)
+            }
+            Ins::Movk(d, i, s) => {
+                let (old, dold) = self.get(*d);
+                let r = (old & !(0xffffu64 << *s)) | ((*i as u64) << *s);
+                self.set(*d, r, dold);
+                Ok(pc + 1)
+            }
+            Ins::CmpR(a, b) => {
+                self.flags = Some((self.get(*a), self.get(*b)));
+                self.flags_clobbered = false;
+                Ok(pc + 1)
+            }
+            Ins::CmpI(a, i) => {
+                self.flags = Some((self.get(*a), (*i as u64, true)));
+                self.flags_clobbered = false;
+                Ok(pc + 1)
+            }
+            Ins::Bcc(cc, l) => {
+                let Some(((a, da), (b, db))) = self.flags else {
+                    let why = if self.flags_clobbered { format!(" (flags {CLOBBER_NOTE})") } else { String::new() };
+                    return Self::viol(ViolationKind::Poison, format!("conditional jump without a preceding comparison{why}"));
+                };
+                if !da || !db {
+                    let n = if !da { note(a, da) } else { note(b, db) };
+                    return Self::viol(ViolationKind::Poison, format!("conditional jump depends on an undefined value{n}"));
+                }
+                let (a, b) = (a as i64, b as i64);
+                let t = match cc {
+                    Cc::Eq => a == b,
+                    Cc::Ne => a != b,
+                    Cc::Lt => a < b,
+                    Cc::Le => a <= b,
+                    Cc::Gt => a > b,
+                    Cc::Ge => a >= b,
+                };
+                if t { self.jump_label(pc, l) } else { Ok(pc + 1) }
+            }
+            Ins::B(l) => self.jump_label(pc, l),
+            Ins::Br(r) => {
+                let (a, d) = self.get(*r);
+                if !d {
+                    return Self::viol(ViolationKind::Poison, format!("indirect jump through undefined register {}{}", reg_name(*r), note(a, d)));
+                }
+                match prog.addr_to_idx.get(&a) {
+                    Some(i) => Ok(*i),
+                    None => Self::viol(ViolationKind::WildJump, format!("indirect jump to {a:#x}, which is not the start of an instruction")),
+                }
+            }
+            Ins::Adr(r, l) => {
+                let i = self.jump_label(pc, l)?;
+                if i >= prog.addr.len() {
+                    return Self::viol(ViolationKind::WildJump, format!("address of label {l} at the end of the code"));
+                }
+                self.set(*r, prog.addr[i], true);
+                Ok(pc + 1)
+            }
+            Ins::Ldr(t, b, off) => {
+                let a = self.base_of(*b)?.wrapping_add(*off as u64);
+                let (v, d) = self.mem_read(a)?;
+                self.set(*t, v, d);
+                Ok(pc + 1)
+            }
+            Ins::Str(t, b, off) => {
+                let a = self.base_of(*b)?.wrapping_add(*off as u64);
+                let (v, d) = self.get(*t);
+                self.mem_write(a, v, d)?;
+                Ok(pc + 1)
+            }
+            Ins::StpPre(t1, t2, b, off) => {
+                let a = self.base_of(*b)?.wrapping_add(*off as u64);
+                let (v1, d1) = self.get(*t1);
+                let (v2, d2) = self.get(*t2);
+                if *b == SP && !self.stack.contains(a) {
+                    return Self::viol(ViolationKind::OutOfBounds, "stack overflow".into());
+                }
+                // pre-index: the base is written back first, the pair goes to the new address
+                self.set(*b, a, true);
+                self.mem_write(a, v1, d1)?;
+                self.mem_write(a.wrapping_add(8), v2, d2)?;
+                Ok(pc + 1)
+            }
+            Ins::LdpPost(t1, t2, b, off) => {
+                let a = self.base_of(*b)?;
+                let (v1, d1) = self.mem_read(a)?;
+                let (v2, d2) = self.mem_read(a.wrapping_add(8))?;
+                self.set(*t1, v1, d1);
+                self.set(*t2, v2, d2);
+                self.set(*b, a.wrapping_add(*off as u64), true);
+                Ok(pc + 1)
+            }
+            Ins::Bl(f) => {
+                let newline = match f.as_str() {
+                    "print_i64" => false,
+                    "println_i64" => true,
+                    _ => return Self::viol(ViolationKind::WildJump, format!("call of unknown external {f}")),
+                };
+                self.stats.ext_calls += 1;
+                let (sp, spd) = self.get(SP);
+                if !spd || sp % 16 != 0 {
+                    return Self::viol(ViolationKind::Abi, format!("stack pointer {sp:#x} not 16-byte aligned at call {f}"));
+                }
+                let (v, d) = self.get(0);
+                if !d {
+                    return Self::viol(ViolationKind::Poison, format!("argument of {f} is undefined{}", note(v, d)));
+                }
+                self.prints.push(PrintEv { value: v as i64, newline });
+                if self.prints.len() > 100_000 {
+                    return Err(Stop::Undef(Undefined::Fuel));
+                }
+                // everything a real callee may clobber becomes undefined: X0..X17, the platform
+                // register X18 and the link register
+                for r in (0..=18).chain([LR]) {
+                    self.set(r, 0xDEAD_0000_0000_0000 | r as u64, false);
+                }
+                self.flags = None;
+                self.flags_clobbered = true;
+                let mut a = self.stack_low.max(self.stack.base);
+                while a < sp && self.stack.contains(a) {
+                    let i = self.stack.idx(a);
+                    if self.stack.def[i] || self.stack.words[i] != 0 {
+                        self.stack.words[i] = 0xDEAD_5555_0000_0000;
+                        self.stack.def[i] = false;
+                    }
+                    a += 8;
+                }
+                Ok(pc + 1)
+            }
+            Ins::Ret => {
+                let (sp, spd) = self.get(SP);
+                if !spd || sp != self.entry_sp {
+                    return Self::viol(ViolationKind::Abi, format!("stack pointer at return is {sp:#x}, expected {:#x}", self.entry_sp));
+                }
+                let (lr, lrd) = self.get(LR);
+                if lr != RET_SENTINEL || !lrd {
+                    return Self::viol(ViolationKind::Abi, format!("return address was overwritten (X30={lr:#x}){}", note(lr, lrd)));
+                }
+                for (k, r) in CALLEE_SAVED.iter().enumerate() {
+                    if self.regs[*r as usize] != CALLEE_SENTINEL + k as u64 {
+                        return Self::viol(ViolationKind::Abi, format!("callee-saved register {} not restored", reg_name(*r)));
+                    }
+                }
+                let (v, d) = self.get(0);
+                if !d {
+                    return Self::viol(ViolationKind::Poison, format!("result register undefined at return{}", note(v, d)));
+                }
+                Err(Stop::Done(v as i64))
+            }
+        }
+    }
+
+    /// run to completion; returns the end state of the observable and the violation, if any
+    fn exec(&mut self, cfg: &EmuConfig) -> (Result<i64, Undefined>, Option<Violation>) {
+        let prog = self.prog;
+        let mut monitor = HeapMonitor::default();
+        // EMU_TRACE=1: print the source line of every executed item (diagnosis of findings)
+        let trace = std::env::var("EMU_TRACE").is_ok();
+        let mut pc = prog.entry;
+        let mut violation = None;
+        let end: Result<i64, Undefined> = loop {
+            if pc >= prog.ins.len() {
+                violation = Some(Violation { kind: ViolationKind::WildJump, msg: "execution fell off the end of the code".into(), pc_line: 0 });
+                break Err(Undefined::Internal("fell off"));
+            }
+            self.stats.instructions += 1;
+            if self.stats.instructions > cfg.max_instructions {
+                break Err(Undefined::Fuel);
+            }
+            if trace {
+                eprintln!("trace line {} sp={:#x}", prog.line[pc], self.regs[SP as usize]);
+            }
+            match self.step(pc, cfg, &mut monitor) {
+                Ok(n) => pc = n,
+                Err(Stop::Done(v)) => break Ok(v),
+                Err(Stop::Undef(u)) => break Err(u),
+                Err(Stop::Viol(kind, msg)) => {
+                    violation = Some(Violation { kind, msg, pc_line: prog.line[pc] });
+                    break Err(Undefined::Internal("sanitizer"));
+                }
+            }
+        };
+        self.stats.max_frontier_blocks = self.stats.max_frontier_blocks.max(monitor.max_frontier);
+        (end, violation)
+    }
+}
+
+pub fn run(prog: &Program, args: &[i64], cfg: &EmuConfig) -> EmuResult {
+    let mut m = Machine::new(prog, args, cfg);
+    let (end, violation) = m.exec(cfg);
+    EmuResult { outcome: Outcome { prints: m.prints, end }, violation, stats: m.stats }
+}
+
+#[cfg(test)]
+mod tests {
+    use super::*;
+
+    fn cfg() -> EmuConfig {
+        EmuConfig { heap_bytes: 1 << 16, max_instructions: 100_000, heap_check_every: 0, footprint_check: false }
+    }
+
+    fn wrap(body: &str) -> String {
+        format!(".text\n.global asm_main\n\nasm_main:\n{body}\n")
+    }
+
+    fn run_body(body: &str, args: &[i64]) -> EmuResult {
+        let p = parse(&wrap(body)).unwrap_or_else(|e| panic!("parse: {e}"));
+        run(&p, args, &cfg())
+    }
+
+    fn result(body: &str) -> i64 {
+        let r = run_body(body, &[]);
+        if let Some(v) = &r.violation {
+            panic!("violation {:?} line {}: {}", v.kind, v.pc_line, v.msg);
+        }
+        r.outcome.end.clone().unwrap_or_else(|e| panic!("undefined {e:?}"))
+    }
+
+    fn violation(body: &str) -> Violation {
+        run_body(body, &[]).violation.expect("expected a violation")
+    }
+
+    /// load an immediate into Xr with MOVZ + MOVK (independent of the backend's synthesis)
+    fn li(r: u8, v: i64) -> String {
+        let u = v as u64;
+        format!(
+            "    MOVZ X{r}, {}, LSL 0\n    MOVK X{r}, {}, LSL 16\n    MOVK X{r}, {}, LSL 32\n    MOVK X{r}, {}, LSL 48\n",
+            u & 0xffff,
+            (u >> 16) & 0xffff,
+            (u >> 32) & 0xffff,
+            (u >> 48) & 0xffff
+        )
+    }
+
+    #[test]
+    fn movz_movn_movk_manual_cases() {
+        // MOVN Xd, 0 = NOT(0) = -1
+        assert_eq!(result("    MOVN X0, 0, LSL 0\n    RET"), -1);
+        // 0x1234_0000_FFFF = MOVZ low halfword, MOVK halfword 2
+        assert_eq!(result("    MOVZ X0, 65535, LSL 0\n    MOVK X0, 4660, LSL 32\n    RET"), 0x1234_0000_FFFF);
+        // i64::MIN = 0x8000 << 48
+        assert_eq!(result("    MOVZ X0, 32768, LSL 48\n    RET"), i64::MIN);
+        // MOVZ zeroes all other halfwords even if the register held something before
+        assert_eq!(result("    MOVN X0, 0, LSL 0\n    MOVZ X0, 7, LSL 16\n    RET"), 7 << 16);
+        // MOVN with a shift: NOT(1 << 16); MOVK keeps the other 48 bits
+        assert_eq!(result("    MOVN X0, 1, LSL 16\n    RET") as u64, 0xFFFF_FFFF_FFFE_FFFF);
+        assert_eq!(result("    MOVN X0, 1, LSL 16\n    MOVK X0, 43981, LSL 0\n    RET") as u64, 0xFFFF_FFFF_FFFE_ABCD);
+        assert_eq!(result("    MOVN X0, 0, LSL 0\n    MOVK X0, 0, LSL 48\n    RET") as u64, 0x0000_FFFF_FFFF_FFFF);
+        // i64::MAX = MOVN of the top halfword 0x8000
+        assert_eq!(result("    MOVN X0, 32768, LSL 48\n    RET"), i64::MAX);
+    }
+
+    #[test]
+    fn backend_literal_synthesis_round_trips() {
+        use axcut2aarch64::code::Code;
+        use axcut2aarch64::config::Immediate;
+        use axcut2backend::code::Instructions;
+        use printer::Print;
+        let vals: [i64; 18] = [
+            0,
+            -1,
+            1,
+            -2,
+            65535,
+            65536,
+            -65536,
+            -65537,
+            0x1234_0000_FFFF,
+            i64::MIN,
+            i64::MAX,
+            0x7FFF_FFFF,
+            -0x8000_0000,
+            0x0000_FFFF_0000_FFFFu64 as i64,
+            0xFFFF_0000_FFFF_0000u64 as i64,
+            0xFFFF_FFFF_0000_1234u64 as i64,
+            0x0123_4567_89AB_CDEFu64 as i64,
+            0xFFFF_1234_FFFF_FFFFu64 as i64,
+        ];
+        for v in vals {
+            let mut code: Vec<Code> = Vec::new();
+            <axcut2aarch64::Backend as Instructions<Code, Temporary, Immediate>>::load_immediate(Temporary::Register(BReg::X(0)), v.into(), &mut code);
+            let mut body = String::new();
+            for c in &code {
+                body.push_str(&c.print_to_string(None));
+                body.push('\n');
+            }
+            body.push_str("    RET");
+            assert_eq!(result(&body), v, "literal {v:#x} via\n{body}");
+        }
+    }
+
+    #[test]
+    fn add_sub_mul_wrap_and_immediates() {
+        assert_eq!(result(&format!("{}{}    ADD X0, X5, X6\n    RET", li(5, i64::MAX), li(6, 1))), i64::MIN);
+        assert_eq!(result(&format!("{}{}    SUB X0, X5, X6\n    RET", li(5, i64::MIN), li(6, 1))), i64::MAX);
+        assert_eq!(result(&format!("{}{}    MUL X0, X5, X6\n    RET", li(5, -7), li(6, 6))), -42);
+        assert_eq!(result(&format!("{}{}    MUL X0, X5, X6\n    RET", li(5, i64::MIN), li(6, -1))), i64::MIN);
+        assert_eq!(result(&format!("{}    ADD X0, X5, 4095\n    RET", li(5, -4095))), 0);
+        assert_eq!(result(&format!("{}    SUB X0, X5, 1\n    RET", li(5, 0))), -1);
+        // flags survive ADD/SUB (they are not the S variants)
+        assert_eq!(result(&format!("{}    CMP X5, 3\n    ADD X5, X5, 10\n    BEQ yes\n    MOVZ X0, 0, LSL 0\n    RET\nyes:\n    MOVZ X0, 1, LSL 0\n    RET", li(5, 3))), 1);
+    }
+
+    #[test]
+    fn sdiv_signs_and_edge_cases() {
+        let div = |a: i64, b: i64| result(&format!("{}{}    SDIV X0, X5, X6\n    RET", li(5, a), li(6, b)));
+        // rounds towards zero
+        assert_eq!(div(7, 2), 3);
+        assert_eq!(div(-7, 2), -3);
+        assert_eq!(div(7, -2), -3);
+        assert_eq!(div(-7, -2), 3);
+        assert_eq!(div(0, 5), 0);
+        // no trap: division by zero writes zero, the overflowing division wraps
+        assert_eq!(div(123, 0), 0);
+        assert_eq!(div(i64::MIN, -1), i64::MIN);
+    }
+
+    #[test]
+    fn msub_remainder() {
+        // the backend's sequence: SDIV X3, a, b ; MSUB d, X3, b, a   (d = a - (a/b)*b)
+        let rem = |a: i64, b: i64| result(&format!("{}{}    SDIV X3, X5, X6\n    MSUB X0, X3, X6, X5\n    RET", li(5, a), li(6, b)));
+        assert_eq!(rem(17, 5), 2);
+        assert_eq!(rem(-17, 5), -2);
+        assert_eq!(rem(17, -5), 2);
+        assert_eq!(rem(-17, -5), -2);
+        assert_eq!(rem(15, 5), 0);
+        // x rem 0 = x on hardware (quotient 0), MIN rem -1 = 0
+        assert_eq!(rem(9, 0), 9);
+        assert_eq!(rem(i64::MIN, -1), 0);
+        // plain MSUB: Xd = Xa - Xn*Xm
+        assert_eq!(result(&format!("{}{}{}    MSUB X0, X5, X6, X7\n    RET", li(5, 3), li(6, 4), li(7, 100))), 88);
+    }
+
+    #[test]
+    fn cmp_and_every_condition() {
+        let pairs: [(i64, i64); 7] = [(1, 2), (2, 1), (3, 3), (-1, 1), (1, -1), (i64::MIN, i64::MAX), (i64::MAX, i64::MIN)];
+        let conds: [(&str, fn(i64, i64) -> bool); 6] =
+            [("BEQ", |a, b| a == b), ("BNE", |a, b| a != b), ("BLT", |a, b| a < b), ("BLE", |a, b| a <= b), ("BGT", |a, b| a > b), ("BGE", |a, b| a >= b)];
+        for (a, b) in pairs {
+            for (mn, f) in conds {
+                let body = format!("{}{}    CMP X5, X6\n    {mn} taken\n    MOVZ X0, 0, LSL 0\n    RET\n\ntaken:\n    MOVZ X0, 1, LSL 0\n    RET", li(5, a), li(6, b));
+                assert_eq!(result(&body), f(a, b) as i64, "{a} {mn} {b}");
+            }
+        }
+        // immediate form, as used for the zero tests
+        for a in [-5i64, 0, 5] {
+            for (mn, f) in conds {
+                let body = format!("{}    CMP X5, 0\n    {mn} taken\n    MOVZ X0, 0, LSL 0\n    RET\n\ntaken:\n    MOVZ X0, 1, LSL 0\n    RET", li(5, a));
+                assert_eq!(result(&body), f(a, 0) as i64, "{a} {mn} 0");
+            }
+        }
+    }
+
+    #[test]
+    fn conditional_branch_needs_defined_flags() {
+        let v = violation("    BEQ l\nl:\n    RET");
+        assert_eq!(v.kind, ViolationKind::Poison);
+        // X9 is not defined at entry
+        let v = violation("    CMP X9, 0\n    BEQ l\nl:\n    RET");
+        assert_eq!(v.kind, ViolationKind::Poison);
+        assert!(!v.msg.contains(CLOBBER_NOTE));
+        // a callee-saved register holds the caller's value: may be moved around but not used
+        let v = violation("    MOV X5, X19\n    CMP X5, 0\n    BEQ l\nl:\n    RET");
+        assert_eq!(v.kind, ViolationKind::Poison);
+    }
+
+    #[test]
+    fn stp_pre_index_ldp_post_index() {
+        let p = parse(&wrap(&format!(
+            "{}{}    STP X5, X6, [ SP, -16 ]!\n    LDR X7, [ SP, 0 ]\n    LDR X8, [ SP, 8 ]\n    STP X19, X20, [ SP, -16 ]!\n    LDP X9, X10, [ SP ], 16\n    LDP X11, X12, [ SP ], 16\n    MOVZ X0, 0, LSL 0\n    RET",
+            li(5, 111),
+            li(6, 222)
+        )))
+        .unwrap();
+        let c = cfg();
+        let mut m = Machine::new(&p, &[], &c);
+        let entry = m.entry_sp;
+        let (end, viol) = m.exec(&c);
+        assert!(viol.is_none(), "{:?}", viol.map(|v| v.msg));
+        assert_eq!(end, Ok(0));
+        // first register at the lower address, second at +8
+        assert_eq!((m.get(7), m.get(8)), ((111, true), (222, true)));
+        assert_eq!((m.get(11), m.get(12)), ((111, true), (222, true)));
+        // values and poison of the callee-saved registers travel through memory
+        assert_eq!(m.get(9), (CALLEE_SENTINEL, false));
+        assert_eq!(m.get(10), (CALLEE_SENTINEL + 1, false));
+        assert_eq!(m.get(SP), (entry, true));
+        assert_eq!(m.stack.words[m.stack.idx(entry - 16)], 111);
+        assert_eq!(m.stack.words[m.stack.idx(entry - 8)], 222);
+        // popping more than was pushed reads the caller's frame
+        let v = violation("    LDP X5, X6, [ SP ], 16\n    RET");
+        assert_eq!(v.kind, ViolationKind::OutOfBounds);
+    }
+
+    #[test]
+    fn ldr_str_offsets_heap_and_stack() {
+        // X0 = heap pointer at entry
+        let body = format!(
+            "{}    MOV X4, X0\n    STR X5, [ X4, 56 ]\n    STR XZR, [ X4, 48 ]\n    LDR X6, [ X4, 56 ]\n    LDR X7, [ X4, 48 ]\n    ADD X8, X4, 16\n    LDR X9, [ X8, 40 ]\n    ADD X0, X6, X9\n    ADD X0, X0, X7\n    RET",
+            li(5, 21)
+        );
+        assert_eq!(result(&body), 42);
+        // spill slots: SP-relative, within the reserved area
+        let body = format!("{}    SUB SP, SP, 2048\n    STR X5, [ SP, 2040 ]\n    STR X5, [ SP, 0 ]\n    LDR X0, [ SP, 2040 ]\n    ADD SP, SP, 2048\n    RET", li(5, 9));
+        assert_eq!(result(&body), 9);
+        // uninitialised stack memory is poison: loading is fine, returning it is not
+        let v = violation("    SUB SP, SP, 2048\n    LDR X0, [ SP, 8 ]\n    ADD SP, SP, 2048\n    RET");
+        assert_eq!(v.kind, ViolationKind::Poison);
+        // bounds: below SP, the caller's frame, far outside, just beyond the heap
+        assert_eq!(violation("    SUB X5, SP, 8\n    LDR X6, [ X5, 0 ]\n    RET").kind, ViolationKind::OutOfBounds);
+        assert_eq!(violation("    STR XZR, [ SP, 0 ]\n    RET").kind, ViolationKind::OutOfBounds);
+        assert_eq!(violation("    MOVZ X5, 64, LSL 0\n    LDR X6, [ X5, 0 ]\n    RET").kind, ViolationKind::OutOfBounds);
+        assert_eq!(violation("    LDR X6, [ X0, 4 ]\n    RET").kind, ViolationKind::OutOfBounds);
+        let r = run_body("    MOVZ X5, 1, LSL 16\n    ADD X5, X5, X0\n    LDR X6, [ X5, 0 ]\n    RET", &[]);
+        assert!(r.violation.is_none());
+        assert_eq!(r.outcome.end, Err(Undefined::Heap));
+        // address from an undefined register
+        assert_eq!(violation("    LDR X6, [ X9, 0 ]\n    RET").kind, ViolationKind::Poison);
+    }
+
+    #[test]
+    fn adr_br_jump_table() {
+        let table = |tag: i64| {
+            format!(
+                "    MOVZ X7, {tag}, LSL 0\n    ADR X2, tab\n    ADD X2, X2, X7\n    BR X2\n\ntab:\n    B c0\n    B c1\n    B c2\n\nc0:\n    MOVZ X0, 10, LSL 0\n    RET\n\nc1:\n    MOVZ X0, 11, LSL 0\n    RET\n\nc2:\n    // @verif stmt=lit n=0 env=[]\n    MOVZ X0, 12, LSL 0\n    RET"
+            )
+        };
+        assert_eq!(result(&table(0)), 10);
+        assert_eq!(result(&table(4)), 11);
+        assert_eq!(result(&table(8)), 12);
+        // not an instruction start
+        assert_eq!(violation(&table(2)).kind, ViolationKind::WildJump);
+        assert_eq!(violation(&table(4000)).kind, ViolationKind::WildJump);
+        // a direct BR to a label whose first item is a marker executes the marker
+        let r = run_body("    ADR X2, c\n    BR X2\n\nc:\n    // @verif stmt=lit n=0 env=[]\n    // lit x <- 1;\n    MOVZ X0, 1, LSL 0\n    RET", &[]);
+        assert_eq!(r.outcome.end, Ok(1));
+        assert_eq!(r.stats.markers, 1);
+        // addresses: 4 bytes per instruction, markers and labels none
+        let p = parse(&wrap(&table(0))).unwrap();
+        assert_eq!(p.addr[p.labels["tab"]], CODE_BASE + 16);
+        assert_eq!(p.addr[p.labels["c2"]], CODE_BASE + 16 + 12 + 16);
+        assert_eq!(violation("    BR X9").kind, ViolationKind::Poison);
+    }
+
+    #[test]
+    fn arguments_and_entry_state() {
+        let r = run_body("    ADD X0, X1, X2\n    ADD X0, X0, X7\n    RET", &[1, 2, 3, 4, 5, 6, 70]);
+        assert_eq!(r.outcome.end, Ok(73));
+        // registers not carrying an argument are undefined at entry
+        let r = run_body("    MOV X0, X3\n    RET", &[1, 2]);
+        assert_eq!(r.violation.unwrap().kind, ViolationKind::Poison);
+        // heap pointer
+        assert_eq!(result("    RET"), HEAP_BASE as i64);
+    }
+
+    #[test]
+    fn external_call_clobbers_and_abi() {
+        let r = run_body(&format!("{}    MOV X0, X5\n    BL print_i64\n    MOV X0, X5\n    BL println_i64\n    MOVZ X0, 3, LSL 0\n    RET", li(5, -12)), &[]);
+        // X5 does not survive the first call
+        let v = r.violation.unwrap();
+        assert_eq!(v.kind, ViolationKind::Poison);
+        assert!(v.msg.contains(CLOBBER_NOTE), "{}", v.msg);
+        assert_eq!(r.outcome.prints, vec![PrintEv { value: -12, newline: false }]);
+        // callee-saved registers and the saved link register do
+        let body = format!(
+            "    STP X19, X30, [ SP, -16 ]!\n{}    MOV X0, X19\n    BL println_i64\n    MOV X0, X19\n    BL print_i64\n    MOV X0, X19\n    LDP X19, X30, [ SP ], 16\n    RET",
+            li(19, 77)
+        );
+        let r = run_body(&body, &[]);
+        assert!(r.violation.is_none(), "{:?}", r.violation.map(|v| v.msg));
+        assert_eq!(r.outcome.end, Ok(77));
+        assert_eq!(r.outcome.prints, vec![PrintEv { value: 77, newline: true }, PrintEv { value: 77, newline: false }]);
+        assert_eq!(r.stats.ext_calls, 2);
+        // the link register is gone after a call unless saved
+        let v = violation("    MOVZ X0, 1, LSL 0\n    BL print_i64\n    MOVZ X0, 1, LSL 0\n    RET");
+        assert_eq!(v.kind, ViolationKind::Abi);
+        assert!(v.msg.contains(CLOBBER_NOTE));
+        // stack below SP is dead after a call; flags too
+        let v = violation("    MOVZ X0, 1, LSL 0\n    CMP X0, 1\n    BL print_i64\n    BEQ l\nl:\n    RET");
+        assert_eq!(v.kind, ViolationKind::Poison);
+        assert!(v.msg.contains(CLOBBER_NOTE));
+        // alignment of SP at the call and at SP-relative accesses
+        assert_eq!(violation("    SUB SP, SP, 8\n    MOVZ X0, 1, LSL 0\n    BL print_i64\n    RET").kind, ViolationKind::Abi);
+        assert_eq!(violation("    SUB SP, SP, 8\n    STR XZR, [ SP, 0 ]\n    RET").kind, ViolationKind::Abi);
+        // undefined argument
+        assert_eq!(violation("    MOV X0, X9\n    BL print_i64\n    RET").kind, ViolationKind::Poison);
+        assert_eq!(violation("    BL exit\n    RET").kind, ViolationKind::WildJump);
+    }
+
+    #[test]
+    fn return_checks() {
+        assert_eq!(violation("    SUB SP, SP, 16\n    RET").kind, ViolationKind::Abi);
+        assert_eq!(violation("    MOVZ X21, 1, LSL 0\n    RET").kind, ViolationKind::Abi);
+        assert_eq!(violation("    MOVZ X30, 1, LSL 0\n    RET").kind, ViolationKind::Abi);
+        assert_eq!(violation("    MOV X0, X19\n    RET").kind, ViolationKind::Poison);
+        let v = violation("    MOVZ X0, 1, LSL 0\n    B nowhere");
+        assert_eq!(v.kind, ViolationKind::WildJump);
+        let v = violation("    MOVZ X0, 1, LSL 0");
+        assert_eq!(v.kind, ViolationKind::WildJump);
+        let r = run_body("l:\n    B l", &[]);
+        assert_eq!(r.outcome.end, Err(Undefined::Fuel));
+    }
+
+    #[test]
+    fn parser_accepts_only_printed_forms() {
+        for bad in [
+            "    CBZ X0, l",
+            "    ADD X0, X1",
+            "    ADD X0, X1, #4",
+            "    LDR X0, [ X1 ]",
+            "    STP X0, X1, [ SP, -16 ]",
+            "    LDP X0, X1, [ SP, 16 ]",
+            "    MOVZ X0, 1",
+            "    MOV X0, 1",
+            "    MOV W0, W1",
+            "    ADD X31, X1, X2",
+            "    RET X30",
+            "    movz X0, 1, LSL 0",
+            "    B.EQ l",
+        ] {
+            let e = parse(&wrap(bad)).err().unwrap_or_else(|| panic!("accepted {bad}"));
+            assert!(e.starts_with("line 5: unknown instruction form: "), "{e}");
+        }
+        assert!(parse(".text\nmain:\n    RET\n").is_err()); // no asm_main
+        assert!(parse(&wrap("    // @verif stmt=lit n=x env=[]\n    RET")).unwrap_err().contains("malformed marker"));
+        let p = parse(&wrap("    // setup\n    // @verif stmt=lit n=2 env=[a:ext,b:prd]\n    RET")).unwrap();
+        assert_eq!(p.ins.len(), 2);
+        assert!(matches!(&p.ins[0], Ins::Marker(m) if m.kind == "lit" && m.stored == 2 && m.env.len() == 2));
+    }
+
+    #[test]
+    fn unencodable_operands() {
+        assert_eq!(violation("    ADD X0, X0, 5000\n    RET").kind, ViolationKind::Unencodable);
+        assert_eq!(violation("    ADD X0, X0, -1\n    RET").kind, ViolationKind::Unencodable);
+        assert_eq!(violation("    CMP X0, 4096000000\n    RET").kind, ViolationKind::Unencodable);
+        assert_eq!(violation("    MOVZ X0, 65536, LSL 0\n    RET").kind, ViolationKind::Unencodable);
+        assert_eq!(violation("    MOVZ X0, 1, LSL 8\n    RET").kind, ViolationKind::Unencodable);
+        assert_eq!(violation("    LDR X5, [ X0, 32768 ]\n    RET").kind, ViolationKind::Unencodable);
+        assert_eq!(violation("    STP X5, X6, [ SP, -520 ]!\n    RET").kind, ViolationKind::Unencodable);
+        assert_eq!(violation("    MUL X0, SP, X0\n    RET").kind, ViolationKind::Unencodable);
+        assert_eq!(violation("    ADD X0, XZR, 1\n    RET").kind, ViolationKind::Unencodable);
+        // shifted 12-bit immediate is fine
+        assert_eq!(result("    MOVZ X0, 0, LSL 0\n    ADD X0, X0, 8192\n    RET"), 8192);
+    }
+
+    #[test]
+    fn whole_routine_with_heap_monitor() {
+        // prologue / epilogue of into_routine.rs around a one-block allocation and release
+        let text = "\
+.text
+.global asm_main
+
+asm_main:
+    // setup
+    STP X19, X20, [ SP, -16 ]!
+    STP X21, X22, [ SP, -16 ]!
+    STP X23, X24, [ SP, -16 ]!
+    STP X25, X26, [ SP, -16 ]!
+    STP X27, X28, [ SP, -16 ]!
+    STP X29, X30, [ SP, -16 ]!
+    SUB SP, SP, 2048
+    MOV X5, X1
+    MOV X1, X0
+    ADD X1, X1, 64
+
+main_:
+    // @verif stmt=let n=1 env=[a:ext]
+    STR X5, [ X0, 56 ]
+    STR XZR, [ X0, 48 ]
+    STR XZR, [ X0, 32 ]
+    STR XZR, [ X0, 16 ]
+    MOV X4, X0
+    LDR X0, [ X0, 0 ]
+    CMP X0, 0
+    BEQ lab1
+    STR XZR, [ X4, 0 ]
+    B lab2
+
+lab1:
+    MOV X0, X1
+    LDR X1, [ X1, 0 ]
+    CMP X1, 0
+    BEQ lab3
+    B lab2
+
+lab3:
+    ADD X1, X0, 64
+
+lab2:
+    // @verif stmt=switch n=0 env=[b:prd]
+    LDR X7, [ X4, 56 ]
+    STR X0, [ X4, 0 ]
+    MOV X0, X4
+    MOV X5, X7
+    // @verif stmt=exit n=0 env=[a:ext]
+    MOV X0, X5
+    B cleanup
+
+cleanup:
+    ADD SP, SP, 2048
+    LDP X29, X30, [ SP ], 16
+    LDP X27, X28, [ SP ], 16
+    LDP X25, X26, [ SP ], 16
+    LDP X23, X24, [ SP ], 16
+    LDP X21, X22, [ SP ], 16
+    LDP X19, X20, [ SP ], 16
+    RET
+";
+        let p = parse(text).unwrap();
+        let r = run(&p, &[5], &EmuConfig { heap_bytes: 1 << 16, ..Default::default() });
+        assert!(r.violation.is_none(), "{:?}", r.violation.map(|v| v.msg));
+        assert_eq!(r.outcome.end, Ok(5));
+        assert_eq!(r.stats.markers, 3);
+        assert_eq!(r.stats.heap_walks, 3);
+        // dropping the pointer without releasing the block is seen by the monitor
+        let leaky = text.replace("    STR X0, [ X4, 0 ]\n    MOV X0, X4\n", "");
+        let p = parse(&leaky).unwrap();
+        let r = run(&p, &[5], &EmuConfig { heap_bytes: 1 << 16, ..Default::default() });
+        assert_eq!(r.violation.unwrap().kind, ViolationKind::Heap);
+    }
 }
